@@ -84,6 +84,14 @@ def run(ctx):
     ck.declined += ['correctness of zstd itself']
     for config in ctx.configs():
         prog = ctx.prog(config)
+        _cv = errdisc.Conventions(prog)
+        _rtb = [b for b in errdisc.return_type_breaches(prog, _cv) if 'valid' in b[0].name or b[0].name.startswith('comp_')]
+        for _fn, _where, _msg in _rtb:
+            ck.ob('C15-a', 'R1.return-type', _fn.name, 'signed-result', False, '%s: %s' % (_fn.name, _msg), _fn.file,
+                  getattr(_where, 'line', _fn.line), config=config)
+        if not _rtb:
+            ck.ob('C15-a', 'R1.return-type', '*', 'signed-verdicts', True,
+                  'every verdict function returns a signed type (a -1 mismatch is not converted to true)', config=config)
         # ---- C15-a
         n = 0
         for which in ('verify', 'io'):
